@@ -4,6 +4,7 @@ payload: {"cases": [case, ...]}
 case = {"stream": str,
         "nodes": [ {"kind": "iface", "bases": [ids]} |
                    {"kind": "class", "cbases": [ids of earlier class nodes], "impl": [iface ids]} ],
+                   an iface node may carry "falsy": 1|2 (an InterfaceClass subclass with __len__ -> 0 / __bool__ -> False)
                    an iface node may carry "twin_of": id  (same __name__/__module__ as that earlier node)
         "rebase": [[node_id, [new base ids]], ...]        (optional; a third element False = do not observe after it)
         "env_strict": bool                                  (optional: only used by the oracle stream)
@@ -26,6 +27,21 @@ import _boot  # noqa: E402
 from zope.interface import Interface, implementedBy, implementer  # noqa: E402
 from zope.interface import ro  # noqa: E402
 from zope.interface.interface import InterfaceClass  # noqa: E402
+
+
+class FalsyLen(InterfaceClass):
+    """an interface whose truth value is false through __len__ (node attribute "falsy": 1)"""
+    def __len__(self):
+        return 0
+
+
+class FalsyBool(InterfaceClass):
+    """an interface whose truth value is false through __bool__ (node attribute "falsy": 2)"""
+    def __bool__(self):
+        return False
+
+
+IFACE_CLASS = {0: InterfaceClass, 1: FalsyLen, 2: FalsyBool}
 
 
 class World:
@@ -82,7 +98,8 @@ def build(case, idx, w):
     for i, nd in enumerate(case["nodes"], 1):
         if nd["kind"] == "iface":
             # "twin_of": a distinct object with the (__name__, __module__) of an earlier node
-            s = InterfaceClass("I%d_%d" % (idx, nd.get("twin_of", i)), tuple(w.specs[b] for b in nd["bases"]), {})
+            s = IFACE_CLASS[nd.get("falsy", 0)]("I%d_%d" % (idx, nd.get("twin_of", i)),
+                                                tuple(w.specs[b] for b in nd["bases"]), {})
         else:
             cb = tuple(classes[c] for c in nd["cbases"]) or (object,)
             cls = type("K%d_%d" % (idx, i), cb, {})
